@@ -1638,7 +1638,7 @@ impl Op {
                                 Value::U64(ValueU64::new_x(width, v.signed))
                             } else if v.payload & mask == 1 {
                                 Value::U64(ValueU64::new(1, width, v.signed))
-                            } else if v.signed && (v.payload & mask) == mask {
+                            } else if signed && v.signed && (v.payload & mask) == mask {
                                 let p = if exp_odd { mask } else { 1 };
                                 Value::U64(ValueU64::new(p, width, true))
                             } else {
@@ -1652,7 +1652,7 @@ impl Op {
                                 Value::BigUint(ValueBigUint::new_x(width, v.signed))
                             } else if p == b1() {
                                 Value::BigUint(ValueBigUint::new_biguint(b1(), width, v.signed))
-                            } else if v.signed && p == mask {
+                            } else if signed && v.signed && p == mask {
                                 let p = if exp_odd { mask } else { b1() };
                                 Value::BigUint(ValueBigUint::new_biguint(p, width, true))
                             } else {
